@@ -1,5 +1,15 @@
 from .. import deductive
+from ..contracts import lossgrad as LG
 
 
 def run(tier):
-    return deductive.verify_module('objective', nproc=3)
+    reps = deductive.verify_module('objective', nproc=3)
+    for rel, q, c, tag in LG.ITEMS:
+        if tag == 'C04':
+            reps.append(deductive.verify_function(rel, q, c, hooks=LG.OneCellHooks(), module_env=LG.ENV, prefix='%s::%s[one-cell instance]' % (rel, q)))
+    return reps
+
+
+def replay(prop, ob):
+    from ..contracts import lossgrad as LG
+    return LG.replay(prop, ob)
